@@ -50,6 +50,11 @@ ASSUMPTIONS = [
     "justified when the dropped hit and the better kept hit are nested, whatever the size of the inner one.",
     "Fragments of at most one third of their model (the documented fallback of remove_incomplete) may vanish "
     "without an alternative; counted as drop:unspecified-below-fallback, not judged.",
+    "A merge of same-profile fragments must span them exactly, carry their best score and smallest e-value and "
+    "be shorter than 1.5 x model; a fragment that already covers the whole output may absorb the fragments inside "
+    "it however long it is (nothing is extended).",
+    "The order of returned hits among equal starts, and how many copies of byte-identical input hits come back, "
+    "are not constrained (counted as unspecified:...); permutation results are compared with start ties sorted.",
     "'A more complete alternative' may be a hit of another profile anywhere on the protein (the code does not "
     "separate profiles there); 'better-ranked' is higher bitscore, equal bitscores favour the earlier start.",
     "In normal mode same-profile fragments are merged before the competition, so a fragment may be dropped "
@@ -62,7 +67,11 @@ ASSUMPTIONS = [
 REQUIRED = ["op:refine-normal", "op:refine-neighbour", "op:refine-permutation", "op:hmmer", "op:hmmer-permutation",
             "op:filter_results", "op:filter_result_multiple", "op:filter-permutation", "op:docking",
             "shape:start-tie", "shape:score-tie", "shape:nested", "shape:same-profile-fragments",
-            "out:merge", "drop:better-kept-conflict", "drop:incomplete-with-alternative"]
+            "shape:rising-chain", "shape:filter-chain-group-of-4", "shape:filter-tie-for-best",
+            "boundary:overlap-at-margin", "boundary:merge-span-at-limit", "boundary:hmmer-overlap-at-limit",
+            "boundary:docking-49/50", "out:merge", "drop:better-kept-conflict", "drop:incomplete-with-alternative",
+            "filter_results:overlap-group", "filter_multiple:profile-with-copies", "exhaustive:sets",
+            "op:refine-real-biopython-objects"]
 
 MAX_ALL_PERMS = 5
 RANDOM_PERMS = 10
